@@ -187,7 +187,7 @@ func (p *c03) RunCase(ctx *runner.Ctx) runner.CaseResult {
 	ixDefs := map[string]adapt.IndexSpec{"gsi1": {Name: "gsi1", Hash: "g"}, "gsi2": {Name: "gsi2", Hash: "g", Range: "s"}, "gsi4": {Name: "gsi4", Hash: "r", Range: "h"}}
 	existing := func() []string {
 		out := []string{}
-		for _, n := range []string{"gsi1", "gsi2", "gsi4"} {
+		for _, n := range []string{"gsi1", "gsi2", "gsi4", "twin"} {
 			if created[n] {
 				out = append(out, n)
 			}
@@ -237,6 +237,14 @@ func (p *c03) RunCase(ctx *runner.Ctx) runner.CaseResult {
 			d := ixDefs["gsi4"]
 			op = adapt.Op{Kind: adapt.OpUpdateTable, Table: spec.Name, Chg: []adapt.IndexChange{{Create: &d}}}
 			created["gsi4"] = true
+		case (k == 10 || k == 11) && len(existing()) > 0 && !created["twin"]:
+			// a second index over exactly the key attributes of a live one, under another name (how one changes a
+			// projection): from now on both must follow every write independently
+			d := ixDefs[mon.Pick(r, existing())]
+			d.Name = "twin"
+			ixDefs["twin"] = d
+			op = adapt.Op{Kind: adapt.OpUpdateTable, Table: spec.Name, Chg: []adapt.IndexChange{{Create: &d}}}
+			created["twin"] = true
 		case k == 9 && len(existing()) > 0:
 			// replace an index in ONE request: delete + create under the same name (backfill of a fresh index)
 			n := mon.Pick(r, existing())
